@@ -247,6 +247,7 @@ where
     let cw = Arc::new(CountWaker(AtomicUsize::new(0)));
     let waker = Waker::from(cw.clone());
     let mut panicked = false;
+    let mut empty_batch = false;
 
     for ev in events {
         if panicked {
@@ -275,6 +276,9 @@ where
                 match r {
                     Poll::Ready(Some(item)) => {
                         let ds = item.diffs();
+                        if ds.is_empty() {
+                            empty_batch = true;
+                        }
                         out.push_str(&format!("R:{}@{}", I::show(&ds), tr));
                         for d in ds {
                             if !ok_in(&d, view.len()) {
@@ -387,6 +391,9 @@ where
             panic!("bad event {ev}");
         }
     }
+    if empty_batch {
+        out.push_str(" ok:nonemptybatch=0");
+    }
 }
 
 fn apply_src(src: &mut Vector<u32>, src_ok: &mut bool, d: &VectorDiff<u32>) {
@@ -442,6 +449,24 @@ where
     Box::pin(Wrap(Conv(s), std::marker::PhantomData))
 }
 
+/// diffs emitted per event, as text
+fn emitted_per_event(obs: &str) -> Vec<Vec<String>> {
+    obs.split(" ; ")
+        .map(|ev| {
+            let mut v = vec![];
+            for tok in ev.split_whitespace() {
+                for r in tok.split('+') {
+                    if let Some(body) = r.strip_prefix("R:") {
+                        let body = body.split('@').next().unwrap();
+                        v.extend(body.split('|').map(|s| s.to_string()));
+                    }
+                }
+            }
+            v
+        })
+        .collect()
+}
+
 pub fn run_line(line: &str, out: &mut String) {
     let (head, evs) = match line.split_once(" :: ") {
         Some((h, e)) => (h, e),
@@ -450,6 +475,19 @@ pub fn run_line(line: &str, out: &mut String) {
     let head: Vec<&str> = head.split_whitespace().collect();
     assert!(head.len() == 5, "bad head {line}");
     let events: Vec<&str> = evs.split(" ; ").map(|s| s.trim()).filter(|s| !s.is_empty()).collect();
+    if head[2] == "ub" {
+        // C13: the same history on the unbatched and on the batched flavour
+        let mut ou = String::new();
+        let mut ob = String::new();
+        let mut h = head.clone();
+        h[2] = "u";
+        run_generic::<VectorDiff<u32>>(&h, &events, &mut ou);
+        h[2] = "b";
+        run_generic::<Vec<VectorDiff<u32>>>(&h, &events, &mut ob);
+        let same = emitted_per_event(&ou) == emitted_per_event(&ob);
+        out.push_str(&format!("{} || {} ok:samediffs={}\n", ou, ob, b2s(same)));
+        return;
+    }
     if head[2] == "b" {
         run_generic::<Vec<VectorDiff<u32>>>(&head, &events, out);
     } else {
